@@ -116,7 +116,7 @@ def rule_ordarm(E, R):
         return R.cannot(rule, CMP_COMPILE, "anchor not found")
     seen = set()
     n = 0
-    for node, st in walk_arms(h["body"]):
+    for node, st in sem.sem_walk(E, h):
         if not (node.get("k") == "SItem" and node.get("ik") == "Impl" and node.get("trait", "").endswith("Compare")):
             continue
         arm = arm_variants(st, "OrderingOp")
@@ -182,7 +182,7 @@ def rule_ordarm(E, R):
             for fld in q["fields"]:
                 if fld["name"] == "op":
                     matched_ops |= set(pat_bindings(fld["pat"]))
-    for node, st in walk_arms(h["body"]):
+    for node, st in sem.sem_walk(E, h):
         if node.get("k") == "Struct" and norm(node["res"].get("path", "")).endswith("::IpOp"):
             f = {x["name"]: x["e"] for x in node["fields"]}
             arm = arm_variants(st, "OrderingOp")
@@ -287,7 +287,7 @@ def rule_logic(E, R):
     want_one = {"And": ("And", "all"), "Or": ("Or", "any"), "Xor": ("BitXor", "fold")}
     want_vec = {"And": ("And",), "Or": ("Or",), "Xor": ("BitXor",)}
     got_one, got_vec = {}, {}
-    for node, st in walk_arms(h["body"]):
+    for node, st in sem.sem_walk(E, h):
         if node.get("k") != "Call":
             continue
         cal = norm(node.get("callee", ""))
@@ -323,7 +323,7 @@ def rule_logic(E, R):
         g = got_vec.get(op)
         R.check(g == b, rule, fn, "element-wise %s uses %s" % (op.lower(), b[0]), "extracted %s" % (g,), h["span"])
     # xor fold starts from the first operand
-    for node, st in walk_arms(h["body"]):
+    for node, st in sem.sem_walk(E, h):
         if node.get("k") == "MethodCall" and node["m"] == "fold" and arm_variants(st, "LogicalOp") == ["Xor"]:
             init = strip(node["args"][0])
             ok = init.get("k") == "MethodCall" and init["m"] == "execute"
